@@ -18,6 +18,7 @@ Statements:
   ["y", d]            yield d
   ["play", R]         start child routine R at the current logical time
   ["tempo", ci, v]    set tempo of clock ci (from inside a routine)
+  ["beats", ci, off]  clock.beats = clock.beats + off (from a routine of that clock)
   ["send", lat, id]   send_bundle(lat, ['/vf', id])   ["msg", id] send_msg
   ["rand", name, a, b]   draw with a builtin random function and log the value
   ["wait", c] ["sig", c]     Condition c (test = flag c)
@@ -59,6 +60,7 @@ class Gen:
         self.all_seeded = False
         self.tempos = TEMPOS
         self.cond_heavy = False
+        self.beat_offsets = [-8 / 1024, -2 / 1024, -1 / 1024]
         self.nconds = 0
         self.nflows = 0
         self.budget = 0
@@ -135,6 +137,9 @@ class Gen:
                     body.append(['y', self.delta()])
                 else:
                     body.append(['tempo', tci, rng.choice(self.tempos)])
+            elif x < 0.69 and 'beats' in self.features and ci >= 0:
+                # the routine re-bases the beat counter of its own clock
+                body.append(['beats', ci, rng.choice(self.beat_offsets)])
             elif x < 0.74 and 'send' in self.features:
                 body.append(['send', rng.choice([None, -1, 0, 0, 1e-9, 0.2, 3]),
                              rid * 1000 + len(body)])
@@ -513,6 +518,11 @@ class Run:
                 c = self.clocks[s[1]]
                 c.tempo = s[2]
                 self.log.append(('tempo', st['rid'], s[1], s[2],
+                                 self.now_secs() - self.T0))
+            elif op == 'beats':
+                c = self.clocks[s[1]]
+                c.beats = c.beats + s[2]
+                self.log.append(('beats', st['rid'], s[1], s[2],
                                  self.now_secs() - self.T0))
             elif op in ('pause', 'resume', 'stop'):
                 tgt = self.routines.get(s[1])
